@@ -22,6 +22,14 @@ int main(void) {
     if (!strcmp(tok[0], "cfg") && n == 4) {
       scr->alwaysShared = atoi(tok[1]); scr->neverShared = atoi(tok[2]); scr->dontDisconnect = atoi(tok[3]);
       puts("ok");
+    } else if (!strcmp(tok[0], "args") && n >= 1) {
+      /* command-line configuration path: rfbProcessArguments (cargs.c) on the live screen */
+      char *argv[18]; int argc = n, i;
+      argv[0] = (char *)"verif";
+      for (i = 1; i < n && i < 17; i++) argv[i] = tok[i];
+      argv[argc] = NULL;
+      rfbProcessArguments(scr, &argc, argv);
+      puts("ok");
     } else if (!strcmp(tok[0], "conn") && n == 3) {
       int id = atoi(tok[1]);
       if (id < 0 || id >= MAXC || used[id]) { puts("bad-op"); continue; }
